@@ -264,7 +264,7 @@ RS_FACTS = ['DIVMUL(tdiv(nx, q) * p, q)', 'DIVMUL(tdiv(nn, q) * p, q)',
             'MULMONO(tdiv(nn, q) * q - tdiv(nx, q) * q, mdl, p)',
             'MULCANCEL(q, (tdiv(nn, q) - tdiv(nx, q)) * p, dl)']
 fn('dsplib::resample', TU_RS, sig='(const dsplib::arr_real &, int, int, const dsplib::arr_real &)', serves=['C08', 'C05'],
-   extra_env=ENV, pure=True, timeout_ms=20000,
+   extra_env=ENV, pure=True, timeout_ms=20000, param_names=('x', 'p_', 'q_', 'h'),
    requires=[('ratio', 'And(p_ >= 1, p_ <= 1024, q_ >= 1, q_ <= 1024)'), ('coeffs', 'And(h.len >= 1, h.len <= 1048576)'),
              ('signal', 'And(x.len >= 1, x.len <= 1048576)')],
    body_assumes=['forall(lambda a: Implies(And(a >= 1, coprime(a, a)), a == 1))'],
